@@ -312,6 +312,9 @@ func (t *Task) runWithLocking(queuedAs *list.Element) {
 
 	// enter executing state
 	t.executing = true
+	// reset executeAt to detect if task set next execution itself
+	// (done under the lock: a Schedule call from here on must not be wiped)
+	t.executeAt = time.Time{}
 	t.lock.Unlock()
 	verifPoint("task.checked", t.module)
 
@@ -389,9 +392,6 @@ func (t *Task) executeWithLocking() {
 
 		t.lock.Unlock()
 	}()
-
-	// reset executeAt to detect if task set next execution itself
-	t.executeAt = time.Time{}
 
 	// run
 	err := t.taskFn(t.ctx, t)
